@@ -221,9 +221,20 @@ func init() {
 				for _, n := range c.Tree {
 					add(n.ID)
 				}
+				// every third tree: the top node is first created below another parent and then moved
+				// (the older, deleted placement stays in the store; the export is of the live one)
+				moved := job%3 == 1
+				topParent := srcParent
+				if moved {
+					topParent = conc.pfx + "old"
+					if err := client.SendNode(ncA, data.NodeEdge{ID: topParent, Parent: inA.root.ID, Type: "group"}, ""); err != nil {
+						res.fail(Failure{Finding: "infra", What: "creating the first parent: " + err.Error()})
+						return
+					}
+				}
 				for _, id := range order {
 					n := byID[id]
-					ne := data.NodeEdge{ID: conc.id(n.ID), Type: n.Type, Parent: srcParent}
+					ne := data.NodeEdge{ID: conc.id(n.ID), Type: n.Type, Parent: topParent}
 					if n.Parent != "" {
 						ne.Parent = conc.id(n.Parent)
 					}
@@ -236,6 +247,23 @@ func init() {
 					if err := client.SendNode(ncA, ne, ""); err != nil {
 						res.fail(Failure{Finding: "infra", What: "building the tree: " + err.Error(), Case: caseInfo(nil)})
 						return
+					}
+				}
+				if moved {
+					top := byID["n1"]
+					if err := client.MoveNode(ncA, conc.id("n1"), topParent, srcParent, ""); err != nil {
+						res.fail(Failure{Finding: "infra", What: "moving the top node: " + err.Error(), Case: caseInfo(nil)})
+						return
+					}
+					var eps data.Points
+					for _, p := range top.Epts {
+						eps = append(eps, conc.point(p, conc.id))
+					}
+					if len(eps) > 0 {
+						if err := client.SendEdgePoints(ncA, conc.id("n1"), srcParent, eps, true); err != nil {
+							res.fail(Failure{Finding: "infra", What: "edge points of the moved top node: " + err.Error(), Case: caseInfo(nil)})
+							return
+						}
 					}
 				}
 				yml, err := client.ExportNodes(ncA, conc.id("n1"))
